@@ -34,9 +34,15 @@ def build_model():
     return out
 
 
-def run_lines(exe, lines, timeout=3600, chunks=None, env=None):
+def run_lines(exe, lines, timeout=3600, chunks=None, env=None, mem_gb=None):
     """Feed request lines to a line-protocol executable; returns answer lines.
-    Splits into parallel chunks."""
+    Splits into parallel chunks. mem_gb: address-space limit per process (a request that makes the
+    implementation allocate without bound then kills its process quickly instead of the machine)."""
+    import resource
+
+    def limits():
+        if mem_gb:
+            resource.setrlimit(resource.RLIMIT_AS, (mem_gb << 30, mem_gb << 30))
     if not lines:
         return []
     chunks = chunks or (NPROC if len(lines) > 2000 else 1)
@@ -50,7 +56,7 @@ def run_lines(exe, lines, timeout=3600, chunks=None, env=None):
         fin.write(data)
         fin.seek(0)
         fout = tempfile.TemporaryFile()
-        p = subprocess.Popen([exe], stdin=fin, stdout=fout, stderr=subprocess.PIPE, env=env)
+        p = subprocess.Popen([exe], stdin=fin, stdout=fout, stderr=subprocess.PIPE, env=env, preexec_fn=limits if mem_gb else None)
         procs.append((p, fin, fout, part))
     out = []
     for p, fin, fout, part in procs:
